@@ -18,7 +18,7 @@ TcDefectNames == {"tc-special-set", "tc-dialog-no-close-p", "tc-endbr-keeps-fram
                   "tc-adoption-inner-loop-3", "tc-anyotherend-ignores-namespace", "tc-isindex-expansion",
                   "tc-no-rb-rtc", "tc-table-pre-lf-kept", "tc-fragment-table-in-table-dropped", "tc-fragment-tokenizer-state",
                   "tc-popuntil-ignores-namespace", "tc-foreign-endtag-p-br", "tc-svg-no-fedropshadow", "tc-no-template",
-                  "tc-reset-cell-context"}
+                  "tc-reset-cell-context", "tc-adoption-no-current-node-step"}
 Std(d) == d \notin KnownDefects
 \* html5lib has no template support at all: <template> is an ordinary (special) element.  TPL selects the standard's rules:
 \* template contents (a node of kind "content", first child of the template element), the "in template" insertion mode,
@@ -780,6 +780,9 @@ AdoptionInner(ps, st) ==
                  IN AdoptionInner(p3, [st EXCEPT !.cnt = cnt1, !.idx = idx, !.bm = bm, !.last = cl])
 AdoptionOuter(ps, tok, round) ==
     IF round > 8 THEN ps
+    \* the standard's first step (html5lib lacks it): the current node has the tag name and is not in the list -> just pop it
+    ELSE IF round = 1 /\ Std("tc-adoption-no-current-node-step") /\ CurNd(ps).ns = "html" /\ CurName(ps) = tok.n /\ ~InAfe(ps, Cur(ps))
+    THEN Pop(ps)
     ELSE LET fe == AfeFind(ps, tok.n) IN
          IF fe = 0 \/ (InOpen(ps, fe) /\ ~NameInScope(ps, ps.nodes[fe].n, "default")) THEN EndTagOtherInBody(ps, tok.n)
          ELSE IF ~InOpen(ps, fe) THEN [ps EXCEPT !.afe = RemoveFirst(@, fe)]
